@@ -73,6 +73,13 @@ theorem addHeader_eq (env : Env) (a : Args) (t1 : Path) (fs : Fs)
     simp only [hfb] at hex
     exact writeHeader_eq env a t1 fs hex
 
+theorem sibling_ne_self (p : Path) : sibling p ≠ p := by
+  intro h
+  have h1 : (sibling p).length = p.length + licExt.length := by simp [sibling]
+  have h2 : licExt.length = 8 := by decide
+  rw [h, h2] at h1
+  omega
+
 theorem licSuffix_idem {p : Path} (h : WfPath p) : licSuffix (licSuffix p) = licSuffix p := by
   rcases licSuffix_cases p with h1 | h1
   · rw [h1, h1]
